@@ -16,7 +16,13 @@ SPEC = {
                    "symlinks / debug/ / foreign first-level entries), then 3..7 commands from on/local/off/clean/env run "
                    "with the REAL gotelemetry binary (built by the harness from the scratch copy, XDG_CONFIG_HOME "
                    "redirected); one case line per command with full recursive snapshots before/after, exit status, "
-                   "stdout, `gotelemetry env` output and the library's Dir.Mode() afterwards. 20% in-process "
+                   "stdout, `gotelemetry env` output and the library's Dir.Mode() afterwards. Every command runs in a generated "
+                   "process time zone (TZ = a TZif file written by the harness: UTC, +14h, -12h, +13:45, -11h, +5:30, -8h, +1h, "
+                   "-9:30; at every instant the local date of +14h or -12h differs from the UTC date) and with a generated "
+                   "TMPDIR (unset, a fresh directory on the same file system, a fresh directory on ANOTHER file system found "
+                   "at run time (/dev/shm ...), a missing path, a regular file) whose contents must stay unchanged. 5% of "
+                   "units: no user configuration directory (HOME, XDG_CONFIG_HOME unset), the working directory holds a "
+                   "generated decoy telemetry tree that must stay untouched. 20% in-process "
                    "Dir.SetModeAsOf at a generated instant of years 0..9999 expressed in a generated fixed zone, often near midnight, + Mode() read-back; 10% Dir.Mode() on generated "
                    "mode-file bytes. distinct = distinct case lines; every line is compared with the model, none is trivial"),
     ],
@@ -31,7 +37,8 @@ SPEC = {
                   "sequence of on/local/off leaves every path but <dir>/mode identical (C19_mode_cmd_frame), is a no-op "
                   "when Mode() already reads the requested mode (C19_mode_cmd_noop), otherwise succeeds and reads back as "
                   "(requested mode, today) for dates of years 0..9999 (C19_mode_cmd_sets, _file_roundtrip, _reports), today being the UTC "
-                  "date of the instant in every process time zone (C19_zone_independent, _mode_cmd_records_utc_date); the "
+                  "date of the instant in every process time zone (C19_zone_independent, _mode_cmd_records_utc_date) and wherever "
+                  "TMPDIR points, other file systems included (C19_tmpdir_independent, _mode_cmd_sets_any_tmpdir); the "
                   "single failing case (mode path is a directory) is characterised and inert (C19_mode_cmd_fails_iff, "
                   "_failure_inert); in mixed histories the mode path evolves as if only mode commands ran and all other "
                   "paths as if only cleans ran (C19_history_*). The executable oracle evaluated on the real snapshots "
